@@ -4,7 +4,7 @@ from oracles import c19 as oracle
 
 GEN = ["Units", "StyleTemp", "SensorMesh"]
 LEAN_TARGETS = ["MagpyVerif.Props.C19", "MagpyVerif.Props.C20b"]
-PROPS = ["MagpyVerif.Props.C19", "MagpyVerif.Props.C20b"]  # C20b: style_temp_edit_restores (displaying never modifies the objects, also when it fails)
+PROPS = ["MagpyVerif.Props.C19", "MagpyVerif.Props.C20b"]  # C20b: style_temp_edit_restores (only the obj._style slot of the with-block, as a three-Boolean skeleton; see not_shown)
 
 
 def run(ctx, model_ok):
@@ -121,7 +121,28 @@ def run(ctx, model_ok):
                             "'displaying never modifies objects, styles or defaults' (style_temp_edit), axis title unit = factor applied by rescale_traces for an EXPLICIT units_length, "
                             "collections / nesting: no model and no theorem, display oracle only; user model3d traces of a non-generic backend: extra_trace_frames_independent (frame k = process_extra_trace of the "
                             "ORIGINAL user trace at pose k, user dict unchanged) is about Display.extraFrames, where the user's dict is threaded as state; extra_trace_without_copy_accumulates keeps the variant without the "
-                            "dict copy as a literal witness; callables as kwargs / args, the generic-backend branch (linearize_dict) and the backends' constructors are not modelled (extraf rows: matplotlib traces only); unit_factor_table / unit_table_powers are decides over the 18 recorded outputs of get_unit_factor (every power of _UNIT_PREFIX incl. 6..24 = M..Y, and d, c)"]
+                            "dict copy as a literal witness; callables as kwargs / args, the generic-backend branch (linearize_dict) and the backends' constructors are not modelled (extraf rows: matplotlib traces only); unit_factor_table / unit_table_powers are decides over the 18 recorded outputs of get_unit_factor (every power of _UNIT_PREFIX incl. 6..24 = M..Y, and d, c)",
+                            "audit2: (a) place_is_pose / place_inverse / place_preserves_extent live in a Mathlib context (Group G, DistribMulAction G V, Module K V over a FIELD K) that is "
+                            "instantiated only at Q-units on Q and at linear equivalences of Fin 3 -> R, never at the M3 / V3 carrier placeModel runs on; on that carrier (alpha = R, the model's own "
+                            "instances) place_V3_isometry (orthogonal R: all distances multiplied by |f * scale|) and place_V3_inverse are proved instead - that scipy's Rotation.apply is "
+                            "multiplication by an orthogonal matrix stays an assumption, and Float rounding is not covered (place rows: dyadic data only); "
+                            "(b) cylinder_segment_full_turn_seam_open is the instance N = 5; cylinder_segment_full_turn_seam_open_N gives the exact set of 8 open rungs for every N >= 2; "
+                            "(c) auto_unit_prefix_table enumerates 17 + 2 digits; auto_unit_prefix_all_digits / auto_unit_displayed_range state it for every multiple of three and for autoUnit "
+                            "(the driver-run function) over the regenerated table, on the real-number carrier only; the model looks digits up in Gen.Units.table, which also holds d / c "
+                            "(-1, -2) that _UNIT_PREFIX lacks - unreachable because digits is a multiple of three (auto_unit_digits_multiple_of_three); "
+                            "(d) merge_scatter3d_preserves_polylines has NO instance with a concrete mode string in Lean (containsLine \"lines\" = true is not provable by decide / rfl / simp); "
+                            "merge_scatter3d_core_preserves_polylines states the same for mergeScatter3dCore false true; that mode strings are mapped to these two Booleans as Python does is "
+                            "observed by the mscat rows only; "
+                            "(e) group_key_injective holds by construction of the key as a list (the content is that the code builds a tuple - observed by the group rows); the parts are str(value): "
+                            "1 and '1', None and 'None', a missing key and '' still share a group in the code and in the model; concat_key_collision_witness / old_start_cap_was_inverted are about "
+                            "literal pre-fix definitions that nothing executes; "
+                            "(f) path_trace_through_positions restates Display.pathTrace (plus 1 * x + 0 = x); that make_path really takes obj.position and all of it is the path rows' observation (20 rows); "
+                            "(g) sensor_pixel_size_rule covers >= 2 pixels and min distance != 0; the one-pixel case (origin put in front), min distance 0 (dim_ext / 5) and the pixel_size > 0 gate of "
+                            "sensorPixels are in the model and the pixels rows, not in a theorem; circle_arrow_on_circle at d = 0 with sizemode absolute uses a / 0 = 0 of the real field (numpy: inf / nan); "
+                            "(h) 'never modifies': style_temp_edit_restores (Props/C20b) is about slotAfter, a function defined in the Props file over three regenerated Booleans (orig read first, "
+                            "restore in finally, no assignment outside try) - it covers the obj._style slot of ONE with-block only, is not executed by the driver, and says nothing about positions, "
+                            "orientations, style contents, defaults, or nested collections; those are the oracle's no-alter sweep (and the place rows' before / after comparison of the inputs of "
+                            "place_and_orient_model3d)"]
 
 
 def replay(ctx, payload):
